@@ -80,7 +80,7 @@ Theorem C06_bankruptcy_accrues_first :
   nth_bank w b = Ok hb -> nth_bank w' b = Ok hb' -> fresh_after w hb hb' true.
 Proof. exact bankruptcy_fresh. Qed.
 Theorem C06_liquidation_accrues_both_banks_first :
-  forall w liqor liqee ab lb n w' ha hl ha' hl', HOk2 w -> 0 <= n -> liqor <> liqee ->
+  forall w liqor liqee ab lb n w' ha hl ha' hl', HOk2 w -> 0 <= n ->
   h_liquidate w liqor liqee ab lb n = Ok w' ->
   nth_bank w ab = Ok ha -> nth_bank w lb = Ok hl -> nth_bank w' ab = Ok ha' -> nth_bank w' lb = Ok hl' ->
   fresh_after w ha ha' false /\ fresh_after w hl hl' false.
